@@ -368,6 +368,9 @@ class SpecRT:
         if getattr(self.ex, 'muted', 0) and not force:
             return []       # obligations of exploratory runs are discarded
         out = list(st.pc) + self.instantiate_facts(st)
+        hk = self.ex.hooks.get('dynamic_facts')
+        if hk:
+            out += hk(st)
         # the schemas themselves, quantified (for goals that quantify over fresh elements)
         q = z3.Int('q!')
         for cname, fn in st.facts:
